@@ -4,15 +4,16 @@
 package verif_c06_test
 
 import (
-	"sync/atomic"
 	"bytes"
 	"context"
 	"errors"
 	"fmt"
+	"io"
 	"os"
 	"sort"
 	"strings"
 	"sync"
+	"sync/atomic"
 	"time"
 
 	"github.com/synnaxlabs/aspen/internal/cluster"
@@ -1162,6 +1163,20 @@ type refuseCommitDB struct {
 	xkv.DB
 	armed atomic.Bool
 	hits  atomic.Int64
+	// failDig: reads of digest entries (other than the harness's barrier markers) inside
+	// transactions fail (a transient storage read error at the gossip ingress)
+	failDig  atomic.Bool
+	digFails atomic.Int64
+}
+
+var errReadFault = errors.New("verif: transient storage read error")
+
+func (t *refuseCommitTx) Get(ctx context.Context, key []byte, opts ...any) ([]byte, io.Closer, error) {
+	if t.db.failDig.Load() && bytes.HasPrefix(key, []byte("--dig/")) && !bytes.Contains(key, []byte(markerPrefix)) {
+		t.db.digFails.Add(1)
+		return nil, nil, errReadFault
+	}
+	return t.Tx.Get(ctx, key, opts...)
 }
 
 var errCommitRefused = errors.New("verif: commit refused by the storage engine")
@@ -1439,7 +1454,25 @@ func (s *sim) redeliver(to *nodeSim, op Op, step int) error {
 		return nil
 	}
 	s.rep.Class("redelivery-" + op.Mode)
-	fbs, err := s.deliver(to, c.sender, ops, fmt.Sprintf("step %d: redeliver(%s)", step, op.Mode))
+	// Redelivery under a transient read fault: only when every operation of the request is a
+	// duplicate of, or older than, what the node stores - whatever the ingress does with a
+	// digest it cannot read, it must not apply such an operation or tell observers about it.
+	what := fmt.Sprintf("step %d: redeliver(%s)", step, op.Mode)
+	if rdb, ok := to.engine.(*refuseCommitDB); ok && op.ReadFault {
+		stale := true
+		for _, o := range ops {
+			if !to.have[o.ID.Key] || newer(o.ID, to.best[o.ID.Key].ID) {
+				stale = false
+			}
+		}
+		if stale {
+			rdb.failDig.Store(true)
+			defer rdb.failDig.Store(false)
+			s.rep.Class("redelivery-under-digest-read-fault")
+			what += " with digest reads failing"
+		}
+	}
+	fbs, err := s.deliver(to, c.sender, ops, what)
 	if err != nil {
 		return err
 	}
